@@ -14,12 +14,13 @@ theorem isTest_not_jump (n : String) (h : isTest n = true) : isJump n = false :=
   exact h.2
 
 /-- a chain of header tests that all go to the label `L` when taken -/
-theorem testChain_corr (cx : Cx) (L : Nat) : ∀ (bps : List BP) (js : List LItem) (hs : List Hdr) (tgt : BP → Nat),
+theorem testChain_corr (cx : Cx) (L : Nat) (sb : List (String × Beh.Param))
+    (hsb : ∀ (n : String) (ps : List ESV.Param), (⟨n, convParams (ps.map cx.cp.sub)⟩ : Ev) = Src.substEv sb ⟨n, convParams ps⟩) : ∀ (bps : List BP) (js : List LItem) (hs : List Hdr) (tgt : BP → Nat),
     HdrsTo tgt bps js → (∀ b ∈ bps, tgt b = L) → NamesOf hs bps → HdrsOK hs →
-    ∀ r p, Placed cx.rs r p js → ∀ (onT onN : Nat) (b : Src.B),
-      Pushes b (Src.testChain [] (hs.map hdrEv) onT onN b).1 ∧
-      (AgreeOn cx.N cx.Z b (Src.testChain [] (hs.map hdrEv) onT onN b).1 → ∀ m j, R2 cx m j (target cx.rs L) onT →
-        R2 cx m j ⟨r, p + js.length⟩ onN → R2 cx m j ⟨r, p⟩ (Src.testChain [] (hs.map hdrEv) onT onN b).2) := by
+    ∀ r p, Placed cx.cp cx.rs r p js → ∀ (onT onN : Nat) (b : Src.B),
+      Pushes b (Src.testChain sb (hs.map hdrEv) onT onN b).1 ∧
+      (AgreeOn cx.N cx.Z b (Src.testChain sb (hs.map hdrEv) onT onN b).1 → ∀ m j, R2 cx m j (target cx.rs (cx.cp.σ L)) onT →
+        R2 cx m j ⟨r, p + js.length⟩ onN → R2 cx m j ⟨r, p⟩ (Src.testChain sb (hs.map hdrEv) onT onN b).2) := by
   intro bps js hs tgt hh
   induction hh generalizing hs with
   | nil =>
@@ -35,30 +36,30 @@ theorem testChain_corr (cx : Cx) (L : Nat) : ∀ (bps : List BP) (js : List LIte
     | cons h0 hs' =>
       simp only [NamesOf, List.map_cons, List.cons.injEq, Prod.mk.injEq] at hn
       obtain ⟨⟨hnm, hpr⟩, hn'⟩ := hn
-      have hp' : Placed cx.rs r (p + 1) js' := by
+      have hp' : Placed cx.cp cx.rs r (p + 1) js' := by
         have := Placed.right (a := [LItem.ljump ⟨n, b0.name, b0.params⟩ (some (tgt b0))]) (b := js') (by simpa using hp)
         simpa using this
       obtain ⟨g1, c1⟩ := ih hs' (fun x hx => htg x (List.mem_cons_of_mem _ hx)) hn' (fun x hx => hok x (List.mem_cons_of_mem _ hx))
         r (p + 1) hp' onT onN b
       simp only [List.map_cons, Src.testChain]
-      generalize Src.testChain [] (hs'.map hdrEv) onT onN b = R at g1 c1 ⊢
+      generalize Src.testChain sb (hs'.map hdrEv) onT onN b = R at g1 c1 ⊢
       obtain ⟨b1, re⟩ := R
       simp only at g1 c1 ⊢
-      obtain ⟨a1, a2⟩ := tbl_push b1 (.test (Src.substEv [] (hdrEv h0)) onT re)
+      obtain ⟨a1, a2⟩ := tbl_push b1 (.test (Src.substEv sb (hdrEv h0)) onT re)
       refine ⟨g1.trans (Pushes.push _ _), fun hag m j hT hN => ?_⟩
       rw [a2]
-      have hN1 : cx.N[(tbl b1).length]? = some (.test (Src.substEv [] (hdrEv h0)) onT re) := by
+      have hN1 : cx.N[(tbl b1).length]? = some (.test (Src.substEv sb (hdrEv h0)) onT re) := by
         rw [hag.2 _ g1.len (by rw [a1]; simp), a1]; simp
       have ht := hok h0 (by simp)
-      have hit : itemAt cx.rs ⟨r, p⟩ = some (.ljump ⟨n, b0.name, b0.params⟩ (some (tgt b0))) := by
+      have hit : ItemC cx.cp cx.rs ⟨r, p⟩ (.ljump ⟨n, b0.name, b0.params⟩ (some (tgt b0))) := by
         simpa using hp.item (d := 0) rfl
       have hstep := lab_test hit (by simpa [hnm] using isTest_not_jump _ ht) (by simpa [hnm] using ht)
       rw [htg b0 (by simp)] at hstep
       have hrest : R2 cx m j ⟨r, p + 1⟩ re :=
         c1 (hag.sub_grow (Grow.refl b) (Grow.push _ _)) m j hT (by simpa [Nat.add_assoc, Nat.add_comm 1] using hN)
-      have hev : (⟨b0.name, convParams b0.params⟩ : Ev) = Src.substEv [] (hdrEv h0) := by
-        rw [substEv_nil]; simp [hdrEv, hnm, hpr]
-      rw [hev] at hstep
+      have hev : (⟨b0.name, convParams (b0.params.map cx.cp.sub)⟩ : Ev) = Src.substEv sb (hdrEv h0) := by
+        rw [hsb]; simp [hdrEv, hnm, hpr]
+      simp only [hev] at hstep
       exact R2.test hstep (nodeStep_of hN1) hT.1 (by simpa [LPos.next] using hrest.1)
 
 /-! ### blocks -/
@@ -97,28 +98,28 @@ theorem block_patched (E : Nat) (sL eL : Nat) (ops js : List LItem) (hno : NoNon
 /-- entering a block at its start label runs the body -/
 theorem block_enter (cx : Cx) {ops : List LItem} {s0 s1 : St} {trBody : Nat → Src.B → Src.B × Nat} {env : Src.Env}
     (hBody : PieceOK cx ops s0 s1 trBody env) (sL : Nat) (tail : List LItem) {r ib : Nat}
-    (hp : Placed cx.rs r ib ([.label sL false] ++ ops ++ tail)) (k : Nat) (b : Src.B) (hag : AgreeOn cx.N cx.Z b (trBody k b).1)
+    (hp : Placed cx.cp cx.rs r ib ([.label sL false] ++ ops ++ tail)) (k : Nat) (b : Src.B) (hag : AgreeOn cx.N cx.Z b (trBody k b).1)
     (m j : Nat) (hex : ExitsOK cx m j s0 env) (hin : NamedIn cx s1) (hafter : falls ops = true → R2 cx m j ⟨r, ib + 1 + ops.length⟩ k) :
-    R2 cx m j ⟨r, ib⟩ (trBody k b).2 ∧ target cx.rs sL = ⟨r, ib⟩ := by
-  have hit : itemAt cx.rs ⟨r, ib⟩ = some (.label sL false) := by simpa using hp.item (d := 0) (by simp)
-  have hpo : Placed cx.rs r (ib + 1) ops := by
+    R2 cx m j ⟨r, ib⟩ (trBody k b).2 ∧ target cx.rs (cx.cp.σ sL) = ⟨r, ib⟩ := by
+  have hit : ItemC cx.cp cx.rs ⟨r, ib⟩ (.label sL false) := by simpa using hp.item (d := 0) (by simp)
+  have hpo : Placed cx.cp cx.rs r (ib + 1) ops := by
     have := (Placed.left (a := [LItem.label sL false] ++ ops) (b := tail) hp).right
     simpa using this
-  have hpre : afterCtxL cx.rs ⟨r, ib + 1⟩ = false := by rw [afterCtxL_succ, hit]; rfl
-  have hres : target cx.rs sL = ⟨r, ib⟩ := by simpa using hp.resolve cx.hlab (d := 0) (l := sL) (nm := false) (by simp)
+  have hpre : afterCtxL cx.rs ⟨r, ib + 1⟩ = false := by rw [afterCtxL_itemC hit]; rfl
+  have hres : target cx.rs (cx.cp.σ sL) = ⟨r, ib⟩ := by simpa using hp.resolve cx.hlab (d := 0) (l := sL) (nm := false) (by simp)
   exact ⟨R2.silL (lab_label hit) (hBody.corr r (ib + 1) hpo hpre k b hag m j hex hin hafter), hres⟩
 
 /-- the label nodes set while translating the body of a block -/
 theorem block_labs (cx : Cx) {ops : List LItem} {s0 s1 : St} {trBody : Nat → Src.B → Src.B × Nat} {env : Src.Env}
     (hBody : PieceOK cx ops s0 s1 trBody env) (sL : Nat) (tail : List LItem) {r ib : Nat}
-    (hp : Placed cx.rs r ib ([.label sL false] ++ ops ++ tail)) (k : Nat) (b : Src.B) (hag : AgreeOn cx.N cx.Z b (trBody k b).1)
+    (hp : Placed cx.cp cx.rs r ib ([.label sL false] ++ ops ++ tail)) (k : Nat) (b : Src.B) (hag : AgreeOn cx.N cx.Z b (trBody k b).1)
     (m j : Nat) (hex : ExitsOK cx m j s0 env) (hin : NamedIn cx s1) (hafter : falls ops = true → R2 cx m j ⟨r, ib + 1 + ops.length⟩ k) :
     LabExport cx env m j b (trBody k b).1 := by
-  have hit : itemAt cx.rs ⟨r, ib⟩ = some (.label sL false) := by simpa using hp.item (d := 0) (by simp)
-  have hpo : Placed cx.rs r (ib + 1) ops := by
+  have hit : ItemC cx.cp cx.rs ⟨r, ib⟩ (.label sL false) := by simpa using hp.item (d := 0) (by simp)
+  have hpo : Placed cx.cp cx.rs r (ib + 1) ops := by
     have := (Placed.left (a := [LItem.label sL false] ++ ops) (b := tail) hp).right
     simpa using this
-  have hpre : afterCtxL cx.rs ⟨r, ib + 1⟩ = false := by rw [afterCtxL_succ, hit]; rfl
+  have hpre : afterCtxL cx.rs ⟨r, ib + 1⟩ = false := by rw [afterCtxL_itemC hit]; rfl
   exact hBody.labs r (ib + 1) hpo hpre k b hag m j hex hin hafter
 
 end ESV.Comp
